@@ -994,6 +994,24 @@ pub fn replay(path: &str, out: &mut dyn Write) {
                 if g.dead {
                     break;
                 }
+                // macro actions for hand-written witnesses: a whole cycle / all pending pushes
+                if toks[0] == "CY" {
+                    if g.coll == CollSt::Idle {
+                        g.run_cycle();
+                    } else {
+                        g.run_cycle_rest();
+                    }
+                    continue;
+                }
+                if toks[0] == "PA" {
+                    let t: usize = toks[1].parse().unwrap();
+                    let mut guard = 0;
+                    while !g.dead && guard < 100_000 && g.threads.get(&t).map(|x| x.st == TSt::Push || x.st == TSt::Exiting).unwrap_or(false) {
+                        g.perform(Act::Push(t));
+                        guard += 1;
+                    }
+                    continue;
+                }
                 let a = match toks[0].as_str() {
                     "I" => Act::Install(toks[1] == "1"),
                     "S" => Act::Spawn(toks[1].parse().unwrap(), toks[2].parse().unwrap(), toks[3].parse().unwrap()),
